@@ -728,7 +728,8 @@ def rule_collection_init(rep: Report, ix, clf: Classifier) -> None:
             iterated = any(e.kind == "bind" and e.node is loop.target for e in p.evs)
             if iterated and not any(loop in p.evs[w.idx].loops for w in stores):
                 inside = [(e.node, e.truth) for e in p.evs if e.kind == "decide" and isinstance(e.node, ast.expr) and loop in e.loops]
-                names = sorted({x.id for t, _ in inside for x in ast.walk(t) if isinstance(x, ast.Name)})
+                # the construct is named after the last decision taken inside the iteration (the one that diverts)
+                names = sorted({x.id for t, _ in inside[-1:] for x in ast.walk(t) if isinstance(x, ast.Name)})
                 key = f"{ref}::{what}-bypassed-by:" + ("+".join(names) or "unconditional")
                 if key not in bypassed:
                     bypassed[key] = True
